@@ -482,6 +482,8 @@ pub struct Queries<'a> {
     /// `orbit(Custom(CUSTOM_LISTS[k]), d)` and its transactional variant
     pub custom: &'a dyn Fn(usize, u32) -> Vec<u32>,
     pub custom_tx: &'a dyn Fn(usize, u32) -> Vec<u32>,
+    /// two plain orbits consumed in lock step
+    pub pair: &'a dyn Fn(Policy, u32, Policy, u32) -> (Vec<u32>, Vec<u32>),
 }
 
 /// Classification used by the 3D claims of C03: glued faces closed and mirrored.
@@ -521,6 +523,20 @@ pub fn check_ids_orbits(s: &State, q: &Queries, darts: &[u32], probe_n: &mut u64
     for &d in darts {
         if !s.in_use(d) {
             continue;
+        }
+        // two orbits alive at once (a nested loop): each must be what it is when consumed alone
+        {
+            let pols: &[Policy] = if dim == 3 { &[Policy::Edge, Policy::Volume, Policy::Face, Policy::Vertex] } else { &[Policy::Face, Policy::Vertex, Policy::Edge] };
+            let (p1, p2) = (pols[d as usize % pols.len()], pols[(d as usize / 2 + 1) % pols.len()]);
+            let d2 = { let x = s.b(1, d); if x != 0 { x } else { d } };
+            let claimed = |p: Policy| !(dim == 3 && matches!(p, Policy::Vertex | Policy::Face) && !claim_3d_vf);
+            if claimed(p1) && claimed(p2) {
+                let (a, b) = (q.pair)(p1, d, p2, d2);
+                let (a0, b0) = ((q.orbit)(p1, d), (q.orbit)(p2, d2));
+                if a != a0 || b != b0 {
+                    out.push(fnd("C03", "interleaved-orbits-differ", format!("orbit({p1:?}, {d}) and orbit({p2:?}, {d2}) advanced in lock step yield {:?} and {:?}; consumed one at a time {a0:?} and {b0:?}", &a[..a.len().min(40)], &b[..b.len().min(40)])));
+                }
+            }
         }
         // one custom policy per dart (which one varies with the dart): closure under the listed
         // images, which are closed under inverses
